@@ -273,7 +273,7 @@ def _analysis(indict, disable_stiffness_check: bool = False, disable_analytic_so
             if "stimuli" in indict.keys():
                 kwargs["stimuli"] = indict["stimuli"]
             for key in ["sim_time", "max_step_size", "integration_accuracy_abs", "integration_accuracy_rel"]:
-                if "options" in indict.keys() and key in Config().keys():
+                if key in Config().keys():
                     kwargs[key] = float(Config()[key])
             if not analytic_solver_json is None:
                 kwargs["analytic_solver_dict"] = analytic_solver_json
